@@ -22,55 +22,63 @@ JSON_NOTE = ("Arbitrary input bytes are decided on kernels (integer readers, une
 
 # property -> (level text, extra note, design ref)
 CLAIMS = {
-    "C01": ("read_u64/read_kind decided on every digit string up to 21/11 digits (exact value or rejected, never wrapped); Event::from_json on "
-            "constant texts covering seven member orders (each member last once; content before/after tags), whitespace in every gap, unknown "
-            "members of every JSON value shape, deferred content and every escape spelling: accepted, consumed = offset past the brace, every "
-            "accessor equals the denoted part, for every prior content of the output buffer.", JSON_NOTE, "DESIGN.md 8.3 C01"),
+    "C01": ("read_u64/read_kind decided on every digit string up to 21/11 digits (exact value or rejected, never wrapped); the value skippers "
+            "that step over unknown members decided on arbitrary bytes against RFC 8259 reference recognisers (burn_value on every number of "
+            "up to 6 bytes, burn_string on every body of up to 7 bytes, burn_key_and_value on arbitrary two-byte keys with ten value shapes and "
+            "optional whitespace); Event::from_json on constant texts covering seven member orders (each member last once; content before/after "
+            "tags), whitespace in every gap, unknown members (strings ending in an escaped backslash, numbers with a leading zero, nested values), "
+            "deferred content and every escape spelling: accepted, consumed = offset past the brace, every accessor equals the denoted part, for "
+            "every prior content of the output buffer.", JSON_NOTE, "DESIGN.md 8.3 C01"),
     "C02": ("Same text parsed into a zeroed and into an arbitrary buffer is byte-identical; compact vs. whitespace/unknown-member/deferred layout vs. "
-            "Event::from_parts byte-identical; escaped vs. literal spelling byte-identical; as_json equals a reference NIP-01 writer for arbitrary "
-            "ASCII tag/content bytes and parses back to the identical image.", JSON_NOTE, "DESIGN.md 8.3 C02"),
+            "Event::from_parts byte-identical; escaped vs. literal spelling byte-identical; (thorough) as_json equals a reference NIP-01 writer for "
+            "arbitrary ASCII tag/content bytes and parses back to the identical image.", JSON_NOTE, "DESIGN.md 8.3 C02"),
     "C03": ("Kani's memory-safety, overflow, bounds and unwinding checks on every parser entry: UTF-8 step/encode on their whole input space, the "
             "unescaper on every input up to 3 bytes and every output length, \\uXXXX with 4 arbitrary bytes, hex readers on every 64-byte input and "
-            "every length 0..=130, Addr on short arbitrary inputs and a template; Tags/Filter/Event::from_json on every prefix length and on output "
-            "lengths around the needed size (instance families, seeded in quick), consumed <= length, accessors total.", JSON_NOTE, "DESIGN.md 8.3 C03"),
+            "every length 0..=130, Addr on short arbitrary inputs; Tags/Filter/Event::from_json on prefix lengths and on output lengths around the "
+            "needed size (instance families, seeded in quick), a filter with 53 '#digit' members (fixed-capacity member table); consumed <= length, "
+            "accessors total.", JSON_NOTE, "DESIGN.md 8.3 C03"),
     "C04": ("One EventStore::store_event from an arbitrary valid file state (arbitrary earlier bytes, arbitrary event image; end-marker residues and "
             "fits/exact/grows instances): 8-aligned offset at or after the old end, end = offset+len within the file, byte-identical read-back, earlier "
-            "bytes unchanged; histories of two/three arbitrary events across file growth and remap; creation.", DB_NOTE +
-            "Not claimed: id lookup across Store-level histories.", "DESIGN.md 8.3 C04"),
+            "bytes unchanged; histories of two/three arbitrary events across file growth and remap; creation; reopen of a three-chunk file followed "
+            "by growth.", DB_NOTE + "Not claimed: id lookup across Store-level histories.", "DESIGN.md 8.3 C04"),
     "C05": ("Index keys: byte-lexicographic order == newest first with id tie-break for ci/ac/akc keys, (author,kind) prefix separation; scan bounds of "
             "all six *_iter functions for an arbitrary since/until window; the scraping gate of find_events on an empty store with arbitrary "
             "since/until/limit/clock/allowances never panics and refuses exactly when the allowances do not cover the filter.", DB_NOTE +
-            "Not claimed: query plans over non-empty stores, limit selection, redaction.", "DESIGN.md 8.3 C05"),
+            "Not claimed: query plans over non-empty stores, limit selection, redaction (find_events dereferences stored events: DESIGN.md 8.2).",
+            "DESIGN.md 8.3 C05"),
     "C06": ("Filter::event_matches equals a reference NIP-01 predicate on byte images with arbitrary contents: 0..2 ids/authors/kinds in six count "
             "shapes with arbitrary times, and tag shapes with prefix/extension values, empty values, multi-letter names, repeated names, name-only and "
             "empty tags, event without tags; never Err.", "Operand images come from a reference encoder written from the layout comments "
             "(C19 decides that from_parts writes the same images).", "DESIGN.md 8.3 C06"),
-    "C07": ("Filter::from_json on constant texts (compact; reordered with whitespace and unknown members): accessors equal the denoted values; "
-            "limit at 2^32-1, 2^32, 2^64-1 saturates; eight tag-letter pairs around the duplicate bitmap; as_json equals a reference writer for "
-            "arbitrary ASCII tag values and round-trips on escape-needing instances.", JSON_NOTE, "DESIGN.md 8.3 C07"),
+    "C07": ("Filter::from_json on constant texts (compact; a tag value containing closing brackets/braces with the tag member first and last; "
+            "(thorough) reordered with whitespace and unknown members): accessors equal the denoted values, both member orders agree; limit at "
+            "2^32-1, 2^32, 2^64-1 saturates; eight tag-letter pairs around the duplicate bitmap incl. both alphabets' last letters; as_json of an "
+            "escape-needing filter equals the reference text, and that text parses back to the from_parts image (round trip in two steps); "
+            "(thorough) as_json for arbitrary ASCII values.", JSON_NOTE, "DESIGN.md 8.3 C07"),
     "C09": ("Kind classification on all 65,536 kinds (mutually exclusive, NIP-01 ranges); Kind::try_from_string_bytes on every digit string; "
-            "akc index key order and (author,kind) separation.", DB_NOTE + "Not claimed: Store-level replacement histories (one store with an "
-            "arbitrary created_at against a holder ran out of 20 GB), d-value separation (known by reading, DESIGN.md 8.5).", "DESIGN.md 8.3 C09"),
-    "C10": ("Store level: with a victim of another author in the store, a deletion request naming it by id (arbitrary times) is refused as an invalid "
-            "delete, the victim stays retrievable byte-identical and unmarked; the address an `a` tag names determines the author compared.",
-            DB_NOTE, "DESIGN.md 8.3 C10"),
-    "C11": ("Lmdb level: the recorded deletion time of an address after two markings with arbitrary times in either order is the maximum; address and "
-            "id markers dump back exactly (what rebuild copies).", DB_NOTE + "Not claimed: Store-level refusal of covered events "
-            "(ran out of 20 GB), rebuild/reopen continuations.", "DESIGN.md 8.3 C11"),
-    "C12": ("Store level: a store that fails as duplicate, and one that fails as replaced after the pre-removal scan, leave every committed table of "
-            "the environment model and the commit count unchanged.", DB_NOTE, "DESIGN.md 8.3 C12"),
-    "C13": ("EventStore level with the crash point as a symbolic variable: a second store_event killed at any of its persistent effects leaves the end "
-            "marker at the old end, the aligned old end or the complete new end, within the file, earlier events intact, and reopens; EventStore::new "
-            "killed at any effect of creation reopens as an empty store with end marker 8.", DB_NOTE +
-            "Assumes a store into the shared mapping survives a process kill and effects reach the file in program order. Not claimed: Store-level "
-            "append-before-commit ordering, remove/vanish, OS page reordering.", "DESIGN.md 8.3 C13"),
+            "akc index key order and (author,kind) separation; author+tag index: an entry for (author,'d',v1) is visible to the scan for "
+            "(author','d',v2) iff author = author' and v1 = v2, for arbitrary authors and 1-2 byte values - except the listed known finding "
+            "(values differing only by trailing NUL bytes collide).", DB_NOTE + "Not decided: Store-level replacement histories (thorough "
+            "harnesses exist and hit their caps: they dereference stored events, DESIGN.md 8.2).", "DESIGN.md 8.3 C09, 8.5"),
+    "C11": ("Lmdb level: the recorded deletion time of an address after two markings with arbitrary 64-bit times in either order is the maximum. "
+            "Store level: with an address deletion at T on record, a complete store_event of an event at that address with an arbitrary "
+            "created_at is refused as deleted iff created_at <= T and stored otherwise, and the recorded time is unchanged.", DB_NOTE +
+            "Not claimed: rebuild/reopen continuations; removal of covered events that are already stored (dereferences stored events).",
+            "DESIGN.md 8.3 C11"),
+    "C12": ("Store level: a complete store_event that fails as deleted (marker on the id) makes no durable commit with an effective change - every "
+            "committed table of the environment model is what it was - leaves the event unretrievable, the marker in place and the statistics "
+            "unchanged.", DB_NOTE + "Not decided in quick: duplicate / replaced / invalid-delete causes (thorough harnesses exist and hit "
+            "their caps).", "DESIGN.md 8.3 C12"),
+    "C13": ("Crash point as a symbolic variable: one complete Store::store_event killed at any of its persistent effects (payload halves, end marker, "
+            "LMDB commit, in program order) leaves either nothing or the complete event behind an id lookup - never an index entry without bytes; "
+            "EventStore::new killed at any effect of creation reopens as an empty store with end marker 8; (thorough) a second "
+            "EventStore::store_event killed at any effect.", DB_NOTE +
+            "Assumes a store into the shared mapping survives a process kill and effects reach the file in program order. Not claimed: "
+            "remove/vanish, OS page reordering.", "DESIGN.md 8.3 C13"),
     "C15": ("EventStore level: a reference taken before a store that enlarges the file keeps its bytes; its address is unchanged under a non-moving "
             "resize and changes under mremap(MAYMOVE) - the latter is a listed known finding.", DB_NOTE, "DESIGN.md 8.3 C15, 8.5"),
-    "C17": ("Store/Lmdb level: after indexing an event with repeated, value-less, multi-letter and empty tags the id/time/author/author-kind counts "
-            "are 1 and the tag-index counts equal the distinct indexable tags; after remove_event all counts are 0.", DB_NOTE +
-            "Not claimed: access-path agreement over histories.", "DESIGN.md 8.3 C17"),
-    "C18": ("Store level: an event whose kind is arbitrary in 20000..=30010 is stored, retrievable iff not ephemeral, unmarked; remove_event removes "
-            "exactly its target among two events, leaves no marker, and is a no-op for an absent id.", DB_NOTE + "Not claimed: vanish.",
+    "C18": ("Store level: an event whose kind is arbitrary in 20000..=30010 is stored by a complete store_event, retrievable iff not ephemeral, and "
+            "carries no deletion marker.", DB_NOTE + "Not decided: vanish; remove_event among two events (thorough, hits its cap).",
             "DESIGN.md 8.3 C18"),
     "C19": ("Tags/Event/Filter::from_parts with arbitrary contents: image equals a reference encoder's, accessors return the parts in order (absent "
             "options as their defaults), BufferTooSmall exactly below the needed size, never a panic.",
@@ -87,6 +95,15 @@ CLAIMS = {
 }
 
 NOT_APPLICABLE = {
+    "C10": "Every scenario that decides it must run Store::handle_deletion_event over the request's tags and, for e targets, dereference "
+           "the stored victim. Measured with Kani/CBMC: the a-tag phase alone and the whole store_event around it do not finish in 700 s, "
+           "the by-id scenarios exceed 20 GB, Addr::try_from_bytes with two arbitrary hex digits needs more than 750 s (values read through "
+           "event.tags()? / get_event_by_id(..)? are opaque to the symbolic executor, DESIGN.md 8.2). The address-parser kernel that remains "
+           "(decided under C03) does not settle the property. Harnesses are kept in harness/c10_store.rs (./check C10 --tier thorough); nothing is claimed.",
+    "C17": "Lmdb::index/deindex walk event.tags()?; everything read through that reference is opaque to the symbolic executor "
+           "(DESIGN.md 8.2): the one-transaction index/deindex mirror on a local event image with a single tag and one arbitrary byte does "
+           "not finish in 700 s, the Store-level forms (store_event + remove_event + stats) not in 750 s; access-path agreement needs "
+           "find_events over stored events. Harnesses are kept in harness/c17_*.rs (./check C17 --tier thorough); nothing is claimed.",
     "C08": "Verification = canonical text -> SHA-256 -> libsecp256k1 (C code behind FFI): neither the hash of a symbolic-length string nor the "
            "signature check can be encoded; the canonical-text kernels that remain are decided under C02/C03 and would not settle 'accepts exactly'.",
     "C14": "Concurrency: Kani/CBMC do not model Rust threads; the isolation relied on is LMDB's writer lock/MVCC (C code behind FFI) "
